@@ -2,7 +2,9 @@ package props
 
 import (
 	"fmt"
+	sdk "github.com/cosmos/cosmos-sdk/types"
 	"math/big"
+	"reflect"
 	"testing"
 
 	banktypes "github.com/cosmos/cosmos-sdk/x/bank/types"
@@ -142,6 +144,25 @@ func (m *c13Mon) Observe(pre, post *cdpSnap, e *cdpEvent) {
 			m.rec.Violate(fmt.Sprintf("C13/collector/negative-net-fees/%s%s", opTag(e), ctx), fmt.Sprintf("net fees %s", nf), map[string]interface{}{"app": k.App, "asset": k.Asset, "event": e.String()})
 		}
 	}
+	// a transaction that names one app books fees for that app only
+	if e.Kind == "tx" && e.Res.OK() && e.Msg != nil {
+		if app, ok := c13MsgApp(e.Msg, pre); ok {
+			for k, nf := range post.NetFees {
+				old := sdk.ZeroInt()
+				if o, found := pre.NetFees[k]; found {
+					old = o
+				}
+				if !nf.Equal(old) {
+					m.rec.Eval(1)
+					m.rec.Count("net_fee_changes_attributed_to_the_message_app", 1)
+					if k.App != app {
+						m.rec.Violate(fmt.Sprintf("C13/collector/net-fees-booked-under-another-app/%s", opTag(e)), fmt.Sprintf("the message names app %d but the net fees of (app %d, asset %d) moved %s -> %s", app, k.App, k.Asset, old, nf),
+							map[string]interface{}{"event": e.String()})
+					}
+				}
+			}
+		}
+	}
 	for d, tot := range sumNetFees {
 		m.rec.Eval(1)
 		bal := post.bal(modLabel(collectortypes.ModuleName), d)
@@ -171,6 +192,26 @@ func (m *c13Mon) Observe(pre, post *cdpSnap, e *cdpEvent) {
 		}
 	}
 	m.rec.Distinct("C13", e.Op, e.Res.OK(), len(post.Lockers), ctx, len(post.NetFees))
+}
+
+// c13MsgApp returns the app a message operates on: its AppId field, or the app of the auction it names.
+func c13MsgApp(msg sdk.Msg, pre *cdpSnap) (uint64, bool) {
+	v := reflect.ValueOf(msg)
+	if v.Kind() == reflect.Ptr {
+		v = v.Elem()
+	}
+	if v.Kind() != reflect.Struct {
+		return 0, false
+	}
+	if f := v.FieldByName("AppId"); f.IsValid() && f.Kind() == reflect.Uint64 && f.Uint() != 0 {
+		return f.Uint(), true
+	}
+	if f := v.FieldByName("AuctionId"); f.IsValid() && f.Kind() == reflect.Uint64 {
+		if a, ok := pre.AucV2[f.Uint()]; ok {
+			return a.AppId, true
+		}
+	}
+	return 0, false
 }
 
 func TestC13(t *testing.T) {
